@@ -4,7 +4,7 @@ from __future__ import annotations
 import itertools
 
 from mc import isolate, shapes
-from mc.core import pmap, run_forked, short_hash
+from mc.core import pmap, run_forked, short_hash, run_tasks
 from ref import ampgen
 from ref.ampgen import leaf
 
@@ -257,8 +257,7 @@ def work_files(items):
 def run(ctx):
     cases = list(structure_cases())
     ctx.log(f"(a) {len(cases)} (tree shape, leaf pattern, event-type arrangement) cases for list_structure")
-    for r in pmap(work_structure, [cases[i:i + 200] for i in range(0, len(cases), 200)], ctx.workers):
-        ctx.absorb(r)
+    run_tasks(ctx, work_structure, [cases[i:i + 200] for i in range(0, len(cases), 200)])
     ctx.count(states=len(cases), transitions=len(cases))
     ctx.part("a-list_structure", cases=len(cases), complete=True)
     isolate.warm(sorted(ampgen.PID))
@@ -278,8 +277,7 @@ def run(ctx):
                     nlines += len(sel)
     ctx.log(f"(b) {len(items)} option files, {nlines} amplitude lines (spin structures x topologies x lineshape kinds x event-type orders x 2 languages)")
     ctx.rng.shuffle(items)
-    for r in pmap(work_files, [[it] for it in items], ctx.workers):
-        ctx.absorb(r)
+    run_tasks(ctx, work_files, [[it] for it in items])
     ctx.count(states=nlines, transitions=nlines)
     ctx.part("b-generated-code", files=len(items), amplitude_lines=nlines, structures={ev: list(s) for ev, s in STRUCTS.items()}, lineshape_kinds=4, complete=ctx.thorough)
     ex = with_lineshapes(STRUCTS[2]["A_VP"], ["GSpline.EFF", None])
